@@ -13,6 +13,20 @@ def main():
     ap.add_argument('--collect', default=None, help='developer tool: dump all violations to this file, exit 0')
     a = ap.parse_args()
     seed = int(os.environ.get('VERIF_SEED', '0') or 0)
+    # one scratch directory per run: workers and the fresh interpreters of the confirmation step inherit TMPDIR,
+    # so everything they create is removed with it
+    import shutil
+    import tempfile
+    base = tempfile.mkdtemp(prefix='mc_run_')
+    os.environ['TMPDIR'] = base
+    tempfile.tempdir = base
+    try:
+        return _main(a, seed)
+    finally:
+        shutil.rmtree(base, ignore_errors=True)
+
+
+def _main(a, seed):
     try:
         from . import common
         from .props import REGISTRY
@@ -25,6 +39,9 @@ def main():
         # documented default arguments: a call relying on defaults equals the call that spells them out
         from .props import defaults
         defaults.check(run, a.pid, coverage)
+        # meta patterns are ordinary values: plain/compiled x string/file x matching method (C15-C19)
+        from .props import apistate
+        apistate.check(run, a.pid, coverage)
         # history differential: the value of a constructor call must not depend on what was built before it
         from .props import hd
         exprs = hd.exprs_for(a.pid, a.tier)
